@@ -14,6 +14,8 @@ FUNC_ALIASES = {
     'numpy.': '', 'np.': '', 'math.': '', 'scipy.': 'scipy.',
 }
 POW_FUNCS = {'power', 'pow'}
+import builtins as _b
+_BUILTINS = set(dir(_b))
 MODULE_ROOTS = {'np', 'numpy', 'math', 'scipy', 'plt', 'matplotlib', 'pd', 'pandas', 'FlowCal', 'six',
                 'datetime', 'collections', 'copy', 'os', 'warnings', 'packaging', 'sklearn', 'skimage',
                 'functools', 'openpyxl', 're', 'time'}
@@ -276,11 +278,20 @@ class Normalizer(object):
                            'greater_equal': 'GtE'}[name], args[0], args[1])
         if name in ('logical_and', 'logical_or') and len(args) == 2 and not kws:
             return (name[8:],) + tuple(sorted(args, key=_key))
+        if isinstance(e.func, ast.Name) and e.func.id not in _BUILTINS and e.func.id not in self.transparent:
+            # call of a local / module-level name: keep the callee as a term (it may be renamed or be a metavariable)
+            return ('call', self.n_Name_callee(e.func), tuple(args), kws)
         if name is None or ('.' in d and d.split('.')[0] not in MODULE_ROOTS):
             # method call on a local object: keep the receiver as an expression (so that it can be
             # renamed / inlined)
             return ('call', self.n(e.func), tuple(args), kws)
         return ('call', name, tuple(args), kws)
+
+    def n_Name_callee(self, e):
+        if e.id in self.env:
+            v = self.env[e.id]
+            return self.n(v) if isinstance(v, ast.AST) else v
+        return ('var', e.id)
 
     def n_Lambda(self, e):
         params = [a.arg for a in e.args.args]
